@@ -92,8 +92,8 @@ macro_rules! impl_range_increment_exclusive_match_arms {
             let from_val = *from.borrow();
             let step_val = *step.borrow();
             let to_val = *to.borrow();
-            let diff = to_val - from_val;
-            if diff < $ty::zero() {
+            // compare, do not subtract: `to - from` overflows the signed kinds for wide spans
+            if to_val < from_val {
               return Err(MechError::new(
                 EmptyRangeError{},
                 None
